@@ -24,6 +24,8 @@ fn main() {
         "C10" => vh::c10::main(mode),
         "C03" => vh::c03::main(mode),
         "C11" => vh::c11::main(mode),
+        "C09" => vh::c09::main(mode),
+        "C12" => vh::c12::main(mode),
         _ => {
             eprintln!("unknown property {id}");
             2
